@@ -11,6 +11,7 @@ pub mod wiretypes;
 pub mod c11;
 pub mod c13;
 pub mod c14;
+pub mod c15;
 pub mod c16;
 pub mod c17;
 pub mod c18;
@@ -28,6 +29,7 @@ pub fn dispatch(id: &str, args: &Args) -> Option<Report> {
         "C11" => c11::run(args),
         "C13" => c13::run(args),
         "C14" => c14::run(args),
+        "C15" => c15::run(args),
         "C16" => c16::run(args),
         "C17" => c17::run(args),
         "C18" => c18::run(args),
